@@ -298,6 +298,7 @@ class Thread:
         self._vt_started = True
         rec = s.spawn(self.run, self._vt_name)
         rec.obj = None
+        rec.freeze_at = getattr(self, "_vt_freeze_at", None)     # harness control, see Scheduler.thaw
         self._vt_rec = rec
         _threads_by_rec[id(rec)] = self
         s.point("thread.start")
